@@ -1,24 +1,37 @@
 --------------------------- MODULE MachineVarsTrace ---------------------------
-(* Recorded executions of the real MachineVariables on booted machines.  A reboot shuts the        *)
-(* machine down, passes what its data manager was last handed through the real YAML writer and     *)
-(* loader and boots a new machine on it with the wall clock moved on.  Logged for a reboot: for    *)
-(* every persistent name whether the variable exists afterwards and whether its value equals the   *)
-(* value last set (the comparison is made by the driver on the real values).                       *)
+(* Recorded executions of the real MachineVariables on booted machines (the machine config         *)
+(* declares the variables whose policy says declared = TRUE in its machine_vars: section).  A      *)
+(* reboot shuts the machine down, passes what its data manager was last handed through the real    *)
+(* YAML writer and loader and boots a new machine on it with the wall clock moved on.              *)
+(* Logged for a reboot, for every persistent or declared name: whether the variable exists         *)
+(* afterwards, the id of its value (the driver only translates real values to the ids of its value *)
+(* table, -1 = none of them) and its persist flag.  Logged for every set and reboot: `file`, the    *)
+(* variables the data file holds at that moment (present, value id).                               *)
 EXTENDS MachineVars, TraceIO
 VARIABLES tid, l
 tvars == <<vars, tid, l>>
 TL == TraceLines[tid].ev
 TConfigs == {}
 TInit == /\ tid \in 1..Len(TraceLines) /\ l = 1 /\ cfg = TraceLines[tid].cfg
-         /\ mv = [k \in Names |-> Absent] /\ disk = [k \in Names |-> NoDisk]
+         /\ mv = [k \in Names |-> Fresh(k)] /\ disk = [k \in Names |-> NoDisk]
          /\ now = 0 /\ nops = 0 /\ act = [op |-> "init"]
+\* the variables seen after a boot are the ones of the model
+Seen(obs) == \A n \in Names : (cfg[n].persist \/ cfg[n].declared) =>
+                /\ obs[n].present = mv'[n].present
+                /\ mv'[n].present => /\ obs[n].v = mv'[n].v
+                                     /\ obs[n].pers = mv'[n].pers
+\* the file: validated against the design, it has to keep the persistent variables (the statement); when named
+\* deviations are switched on to explain a rejected execution it has to be exactly the store of the model (but for
+\* entries whose expiry time has passed: the model keeps them until the next write, a boot that loads any other
+\* variable of the machine - also one the policy does not name - rewrites the file without them)
+FileOK(f) == IF Deviations = {} THEN Keeps(f, mv')
+             ELSE \A n \in Names : /\ f[n].present => disk'[n].present /\ f[n].v = disk'[n].v
+                                   /\ (disk'[n].present /\ ~f[n].present) =>
+                                          disk'[n].expire > 0 /\ disk'[n].expire < now'
 Step(e) ==
-    \/ e.op = "set" /\ Set(e.n, e.v)
+    \/ e.op = "set" /\ Set(e.n, e.v) /\ FileOK(e.file)
     \/ e.op = "adv" /\ Adv(e.d)
-    \/ e.op = "reboot" /\ Reboot(e.down)
-         /\ \A n \in Names : cfg[n].persist =>
-                /\ e.obs[n].present = mv'[n].present
-                /\ mv'[n].present => e.obs[n].eq
+    \/ e.op = "reboot" /\ Reboot(e.down) /\ Seen(e.obs) /\ FileOK(e.file)
 TNext == l <= Len(TL) /\ Step(TL[l]) /\ l' = l + 1 /\ UNCHANGED tid
 TSpec == TInit /\ [][TNext]_tvars
 Reporter == TraceReport(tid, l, Len(TL))
